@@ -139,7 +139,9 @@ def guard_hygiene(res):
             for i, line in enumerate(open(p, errors="replace").read().splitlines(), 1):
                 if "hpke_verif" in line:
                     s = line.strip()
-                    ok = s == "#[cfg(hpke_verif)]" or s.startswith("//") or p.endswith("src/verif.rs")
+                    # the only accepted form is the plain attribute `#[cfg(hpke_verif)]` (anywhere on the line);
+                    # cfg(not(..)), cfg!(..), cfg_attr(..) or combinations would make guard-off code depend on the guard
+                    ok = "hpke_verif" not in s.replace("#[cfg(hpke_verif)]", "") or s.startswith("//") or p.endswith("src/verif.rs")
                     if not ok:
                         bad.append(f"{os.path.relpath(p, REPO)}:{i}: {s}")
     res.evals += 1
